@@ -399,3 +399,55 @@ def S6(inp):
     cl['trimmed_iff_child_succeeded'] = (len(log) == 2 and log[0][1] == 3) if name == 'ok' else (len(log) == 4)
     cl['still_serializing_iff_running'] = (ser._Serializer__pid == 4242) == (name == 'running')
     return Res(cl, nontrivial=name != 'running', obs=lambda: dict(wait=name, log=[e[1] for e in log], pid=ser._Serializer__pid))
+
+
+@obligation('RI', props=('C01', 'C09', 'C04'), quick=[dict(n=2), dict(n=3)], thorough=[dict(n=2), dict(n=3), dict(n=4)], stubs=_STUBS,
+            bounds='follower in any well-formed state with n<=4 entries; the last chunk of a snapshot taken at any index d >= the follower commit index (terms symbolic), leader commit any value >= d; earlier chunks present or missing')
+def RI(inp, n):
+    """snapshot installation on a follower: only a complete transfer is installed; then the log is exactly the two snapshot
+    entries, the applied index is the snapshot position, the user state is the snapshot's, indices do not move backwards and the
+    commit index stays within the log; an incomplete transfer (first chunk missing) installs nothing and acknowledges nothing."""
+    install_memory()
+    now = inp.real('now', 0)
+    clock = so.Clock(now)
+    o, tr, cons = _mk(inp, 'a', ('b', 'c'), clock, False)
+    p = so.sym_state(inp, o, now, n, term_hi=4, base_hi=2, connected=())
+    o.x = -1
+    d = inp.int('snap_idx', 2, 9)
+    dt0, dt1 = inp.int('dt0', 0, 5), inp.int('dt1', 0, 5)
+    mterm = inp.int('mterm', 0, 5)
+    mci = inp.int('mci', 0, 12)
+    inp.assume(And(d >= p.commit, dt0 <= dt1, dt1 <= mterm, mterm >= p.term, mci >= d))
+    xs = inp.int('xs', 0, 5)
+    image = Token(([{'x': xs, 'items': [xs]}, {'_ReplList__data': [xs]}, {'_ReplCounter__counter': xs}], (so.NOOP, d, dt1), (so.NOOP, d - 1, dt0),
+                   set([Node('a'), Node('b'), Node('c')])))
+    ser = get(o, 'serializer')
+    started = inp.flag('first_chunk_seen')
+    if started:
+        ser._Serializer__incomingTransmissionFile = Blob()
+    # the transfer's payload is opaque: the stub serializer concatenates chunks; the last (empty) chunk completes it
+    real_set = ser.setTransmissionData
+
+    def set_tx(data):
+        ok = real_set(data)
+        if ok:
+            ser._Serializer__inMemorySerializedData = image
+        return ok
+    ser.setTransmissionData = set_tx
+    msg = {'type': 'append_entries', 'term': mterm, 'commit_index': mci, 'serialized': (Blob(), False, True)}
+    _, exc = guard(getattr(o, so.P + 'onMessageReceived'), Node('b'), msg)
+    q = so.post_state(o)
+    acks = [m for nd, m in tr.sent if m['type'] == 'next_node_idx' and m['success'] is True]
+    cl = {'no_exception': exc is None}
+    if started:
+        cl['log_is_the_two_snapshot_entries'] = len(q.log) == 2 and And(Eq(q.log[0][1], d - 1), Eq(q.log[1][1], d), Eq(q.log[0][2], dt0), Eq(q.log[1][2], dt1))
+        cl['applied_index_is_snapshot_position'] = Eq(q.applied, d)
+        cl['indices_do_not_move_backwards'] = And(q.applied >= p.applied, q.commit >= p.commit)
+        cl['commit_within_log'] = And(q.commit <= d, q.commit >= q.applied)
+        cl['user_state_is_the_snapshot'] = Eq(o.x, xs)
+        cl['acknowledged_with_next_index'] = len(acks) == 1 and bool(Eq(acks[0]['next_node_idx'], d + 1))
+    else:
+        cl['incomplete_transfer_installs_nothing'] = And(so.logs_equal(p.log, q.log) if len(p.log) == len(q.log) else False, Eq(q.applied, p.applied),
+                                                         Eq(q.commit, p.commit), len(acks) == 0, Eq(o.x, -1))
+    cl['follows_the_sender'] = And(q.role == F, q.leader == Node('b'), Eq(q.term, mterm))
+    return Res(cl, nontrivial=started, obs=lambda: dict(started=started, log=show(q.log), applied=show(q.applied), commit=show(q.commit), x=show(o.x), exc=show(exc)))
